@@ -229,6 +229,36 @@ async def _site_cases(ctx, ncase):
                 if rejected != bool(under):
                     report("register_static_tree", d, labels, {"rejected"} if rejected else set(),
                            {"rejected"} if under else set())
+        # --- Python-level prefix tests (str.startswith): the static-tree arms of
+        # _is_justified_without_node and the recorded-glob-match arm of relevant_paths_under
+        async with WF() as w:
+            async with w.db:
+                tree_labels = sorted({l.rsplit("/", 1)[0] + "/" for l in labels if "/" in l})
+                for q in labels[:8]:
+                    got_a = w.wf._is_justified_without_node(q, tree_labels)
+                    exp_a = any(q.startswith(t) for t in tree_labels)
+                    ctx.case(("_is_justified_without_node:tree-arm", q, tuple(tree_labels)), True)
+                    if got_a != exp_a:
+                        report("_is_justified_without_node:inside-static-tree", q, tree_labels,
+                               {"justified"} if got_a else set(), {"justified"} if exp_a else set())
+                got_b = w.wf._is_justified_without_node(d + "/", tree_labels)
+                exp_b = any((d + "/").startswith(t) or t.startswith(d + "/") for t in tree_labels)
+                ctx.case(("_is_justified_without_node:contains-tree", d, tuple(tree_labels)), nontriv)
+                if got_b != exp_b:
+                    report("_is_justified_without_node:contains-static-tree", d, tree_labels,
+                           {"justified"} if got_b else set(), {"justified"} if exp_b else set())
+                try:
+                    from stepup.core.nglob import NamedGlob
+                    ng = NamedGlob("**", {}, {(): {Path(l) for l in labels}})
+                    w.wf.register_nglob(w.plan, ng)
+                    registered = True
+                except Exception:  # noqa: BLE001 - the registration API changed: covered by C15/C16
+                    registered = False
+                if registered:
+                    got_g = set(w.wf.relevant_paths_under(d))
+                    ctx.case(("relevant_paths_under:glob-matches", d, tuple(labels)), nontriv)
+                    if got_g != under:
+                        report("relevant_paths_under:recorded-glob-matches", d, labels, got_g, under)
         # --- _find_owning_static_tree: trees at the variants, query d/x
         async with WF() as w:
             async with w.db:
